@@ -402,7 +402,25 @@ class _Hints:
       self.rep.note('hint %s [%s]: %s' % (rule, key, message() if callable(message) else message))
 
 
+def storage_dtype(U, rep):
+  """R17.7 [abstract execution, dtype tags]: "holds exactly the inserted records": the buffer stores a record in the record's
+  own dtype.  The queue is constructed with an ALL-INTEGER dummy record; the dtype the data array is allocated with must be
+  the dtype of the flattened record (with x64 disabled any promotion of an int32 record lands on float32, whose 24-bit
+  mantissa rounds values above 2^24)."""
+  f = U.func(RB + '.QueueBase.__init__')
+  I = new_interp(U.repo)
+  leaf = np.array([Rat.lift(0), Rat.lift(0)], dtype=object)
+  I.dtypes[id(leaf)] = ('int', leaf)
+  q = I.apply(ClsRef(RB, load(RB)['classes']['Queue']), [3, {'a': leaf}, 1], {})
+  got = q.f.get('_data_dtype')
+  rep.check(got == ('dtype', 'int'), 'R17.7', 'an integer record is stored in its own dtype',
+            'the storage dtype of an all-integer record is %r, not the dtype of the flattened record: values are converted on '
+            'insert (int32 -> float32 rounds above 2^24), so the buffer does not hold exactly the inserted records' % (got,),
+            where=f.where(), construct='Queue(3, {"a": int[2]}, 1)._data_dtype == ravel_pytree(dummy)[0].dtype')
+
+
 def run(U, rep, tier):
+  storage_dtype(U, rep)
   try:
     guard_order(U, _Hints(rep))
   except AnalysisError as e:
